@@ -16,6 +16,13 @@ let label_c (l : n list) : string =
   match List.map int_of_n l with
   | [] -> "-" | [1] | [3] -> "t" | [2] | [4] -> "u" | _ -> "?"
 
+(* digest of a decoded byte string, same shape as the driver's: length, two position-weighted sums, first bytes *)
+let digest (l : n list) : string =
+  let s1 = ref 0 and s2 = ref 0 and i = ref 0 in
+  List.iter (fun x -> let v = int_of_n x in incr i; s1 := (!s1 + v) mod 65521; s2 := (!s2 + !i * v) mod 4294967291) l;
+  let rec take k l = if k = 0 then [] else match l with [] -> [] | x :: t -> x :: take (k - 1) t in
+  Printf.sprintf "%d:%d:%d:%s" !i !s1 !s2 (hex_of_bytes (take 16 l))
+
 let handle (f : string array) : string =
   match f.(0) with
   | "A" ->
@@ -49,7 +56,7 @@ let handle (f : string array) : string =
       let suite = n (int_of_string ("0x" ^ f.(2))) in
       (match decode_connection suite (bytes_of_hex f.(6)) (bytes_of_hex f.(7)) (bytes_of_hex f.(8))
                (hexlist_of f.(9)) (hexlist_of f.(10)) with
-       | Some (a, b) -> "ok " ^ hex_of_bytes a ^ " " ^ hex_of_bytes b
+       | Some (a, b) -> "ok " ^ digest a ^ " " ^ digest b
        | None -> "err")
   | _ -> "BADCASE"
 
